@@ -4,7 +4,9 @@
     OpenQASMInfo.use_gate + every usage closure (statement = standard gate name on the right registers, token level);
     single_qubit_wrapper_info (definition read with openQASM 2.0 reference semantics vs. the wrapper's unitary - C20);
     CircuitDAG.to_json per operation kind; CircuitDAG.from_json o to_json per operation kind x register-type mix;
-    CircuitBase.to_openqasm emission loop by induction over an abstract sequence().
+    CircuitBase.to_openqasm emission loop by induction over an abstract sequence();
+    CircuitDAG.replace_op on graph fragments (contracts/dag.py): `_openqasm_update(new_operation)` is called exactly once for the NEW
+    operation whatever the classes of old and new operation (a wrapper replaced by a wrapper with other gates needs a new definition).
 [F] JSON name tables over all op classes; gate definitions denote the standard matrices (exact); statements on a grid of
     concrete register numbers (differential check of the f-string token model).
 [N] CircuitDAG.from_openqasm (regex / slicing / int() text parser) - bounded stand-in only.
@@ -17,7 +19,12 @@ from contracts import export as EX
 
 
 def deductive(tier="quick", seed=0):
-    tasks = EX.usage_tasks() + EX.wrapper_tasks() + EX.to_json_tasks() + EX.roundtrip_tasks() + EX.emission_tasks()
+    from contracts import dag as D
+
+    # replace_op keeps the header tables (openqasm_imports / defs / symbols) in step with the operations: the emission-loop contract
+    # below ASSUMES every operation in sequence() went through _openqasm_update (add / insert_at: C12's tasks; replace_op: here)
+    tasks = (EX.usage_tasks() + EX.wrapper_tasks() + EX.to_json_tasks() + EX.roundtrip_tasks() + EX.emission_tasks()
+             + D.replace_tasks())
     d = run_tasks(tasks)
     d.obligations.extend(EX.finite_obligations())
     can = run_tasks(EX.canary_tasks())
